@@ -101,7 +101,9 @@ class Verdict:
             self.samples.append(s)
 
     def nontrivial(self, key: Any) -> None:
-        self.distinct.add(key if isinstance(key, (str, int, tuple)) else json.dumps(key, sort_keys=True, default=str))
+        # (only a 64-bit digest is kept: the thorough tiers count tens of millions of cases)
+        k = key if isinstance(key, (str, int)) else (repr(key) if isinstance(key, tuple) else json.dumps(key, sort_keys=True, default=str))
+        self.distinct.add(k if isinstance(k, int) else int.from_bytes(hashlib.blake2b(k.encode("utf-8", "replace"), digest_size=8).digest(), "big"))
 
     # -- verdicts
     def violation(self, what: str, replay: Any, sig: Optional[str] = None) -> None:
